@@ -10,7 +10,7 @@ theorem print_appends_one_line (P : Platform) (f : Nat) (e : Expr) (env : Nat) (
     ∃ σ2, evalS P (f + 1) (.print e) env repl σ = .ok (.nil, .none) σ2 ∧
       σ2.out = σ1.out ++ P.nfc t ++ ['\n'] ∧ σ2.diags = σ1.diags ∧ σ2.input = σ1.input := by
   refine ⟨σ1.print (P.nfc t ++ ['\n']), ?_, by simp [Store.print, List.append_assoc], rfl, rfl⟩
-  rw [evalS]; simp only [h0, he]; simp [h1, ht, nilOk]
+  rw [evalS]; simp only [guardErr, ER.seq, Res.bind, h0, he]; simp [guardErr, ER.seq, Res.bind, h1, ht, nilOk]
 
 /-- the text of the constants, of a string (its characters, wherever it sits) and of a number -/
 theorem stringify_consts (σ : Store) (f : Nat) (s : List Char) (x : F64) (b : Bool) :
